@@ -1,6 +1,7 @@
 import SedpackProps.C04
 import SedpackProps.C02
 import SedpackProps.C03System
+import SedpackProps.C15
 /-!
 # C02, end to end: the multiset of examples a reader gets is the multiset that was written
 
@@ -62,14 +63,39 @@ end Sedpack.Tree
 namespace Sedpack.Pipe
 open Sedpack.Tree
 
+/-- `as_numpy_iterator_rust(repeat=False)`: the (optionally shuffled) shard list is handed to `parallel_map` with `m = min(T, #shards)`
+worker threads; a full pass of M-PMAP (any interleaving of the worker threads) returns shard positions, each shard's examples
+are served in order, and the examples go through the shuffle buffer when shuffling is on -/
+def RustRun (shuffle : Nat) (paths : List Nat) (ex : Nat → List Nat) (out : List Nat) : Prop :=
+  ∃ ps, PathsRun shuffle paths ps ∧ ∃ mid,
+    ((ps = [] ∧ mid = []) ∨
+     ∃ (c : PMap.Cfg) (s : PMap.St), PMap.Good c ∧ PMap.Reach c s ∧ 0 < c.m ∧ s.ended = true ∧ s.dropped = false ∧
+       c.nq * c.m + c.nr = ps.length ∧ mid = (s.out.map (PMap.idx c.m)).flatMap (fun k => ex (ps.getD k 0))) ∧
+    (if shuffle = 0 then out = mid else SBRun shuffle mid out)
+
+theorem C02_exactly_once_rust (shuffle : Nat) (paths : List Nat) (ex : Nat → List Nat) (out : List Nat)
+    (h : RustRun shuffle paths ex out) : out.Perm (paths.flatMap ex) := by
+  obtain ⟨ps, hps, mid, hmid, hout⟩ := h
+  have hp := (paths_perm shuffle paths ps hps).flatMap_right ex
+  have hm : mid = ps.flatMap ex := by
+    rcases hmid with ⟨h1, h2⟩ | ⟨c, s, g, hr, hm, he, hd, hlen, hmid⟩
+    · rw [h1, h2]; rfl
+    · rw [hmid, PMap.C15_full_pass_is_the_input c g s hr hm he hd, hlen]
+      exact range_flatMap_getD ps ex
+  rw [hm] at hout
+  split at hout
+  · rw [hout]; exact hp
+  · exact (SBRun_perm _ _ _ hout).trans hp
+
 /-- what the reader is given: shard `i` of the enumeration holds `L[i].exs` -/
 def exOf (L : List Shard) (i : Nat) : List Nat := (L[i]?.map (·.exs)).getD []
 
-/-- the three pure-Python interfaces, one full pass each -/
+/-- the three pure-Python interfaces and the Rust reader, one full pass each -/
 inductive Pass (L : List Shard) (out : List Nat) : Prop
   | sync (shuffle : Nat) : SyncRun shuffle (List.range L.length) (exOf L) id out → Pass L out
   | concurrent (shuffle T : Nat) : 0 < T → ConcurrentRun shuffle T (List.range L.length) (exOf L) id out → Pass L out
   | async (shuffle T : Nat) : AsyncRun shuffle T (List.range L.length) (exOf L) id out → Pass L out
+  | rust (shuffle : Nat) : RustRun shuffle (List.range L.length) (exOf L) out → Pass L out
 
 theorem pass_perm (L : List Shard) (out : List Nat) (h : Pass L out) : out.Perm (examplesOf L) := by
   have h2 : (List.range L.length).flatMap (exOf L) = examplesOf L := Sedpack.System.flatMap_shardEx L
@@ -83,6 +109,9 @@ theorem pass_perm (L : List Shard) (out : List Nat) (h : Pass L out) : out.Perm 
   | async shuffle T hrun =>
     have := C02_exactly_once_async shuffle T _ _ id out hrun
     rwa [List.map_id, h2] at this
+  | rust shuffle hrun =>
+    have := C02_exactly_once_rust shuffle _ _ out hrun
+    rwa [h2] at this
 
 /-- **Every pure-Python interface, any shuffle size, any read parallelism, any schedule, after any history**: one full pass
 over the split delivers a permutation of everything the history stored for it. -/
